@@ -310,6 +310,10 @@ pub struct World {
     /// (node, mask of the operations that find no descriptor: 1 = accept, 2 = connect, 4 = datagram bind, 8 = file open -
     /// which calls of a process at its limit fail depends on what was closed in between, so any subset is possible)
     pub fd_exhausted_nodes: Vec<(u8, u8)>,
+    /// (node, limit): the node's descriptor limit (RLIMIT_NOFILE minus what the process needs for itself). While the node holds
+    /// that many simulated sockets, accept(), connect() and datagram bind() fail with EMFILE - the exhaustion is then real,
+    /// made by the node's own open sockets, and ends when it closes some
+    pub fd_limits: Vec<(u8, usize)>,
     /// when set, every datagram handed to `send_to` is recorded as (from, to, bytes) – the wire sniffer of C12
     pub udp_capture: Option<Vec<(SocketAddr, SocketAddr, Vec<u8>)>>,
     /// in-path attacker: datagrams whose source or destination port is listed are not delivered but parked in `udp_held`
@@ -351,6 +355,7 @@ impl World {
             server_config: None,
             first_atomic_ports: Vec::new(),
             fd_exhausted_nodes: Vec::new(),
+            fd_limits: Vec::new(),
             udp_capture: None,
             initial_packet_id: (None, None),
             udp_drop_to_ports: Vec::new(),
@@ -395,6 +400,14 @@ impl World {
             "emfile_udp_bind" => 4,
             _ => 8,
         };
+        let at_limit = bit != 8 && self.fd_limits.iter().any(|(n, limit)| *n == node && {
+            let (s, l, u) = self.open_sockets(node);
+            s + l + u >= *limit
+        });
+        if at_limit {
+            *self.stats.faults_fired.entry("emfile_at_descriptor_limit").or_insert(0) += 1;
+            return true;
+        }
         if self.fd_exhausted_nodes.iter().any(|(n, m)| *n == node && m & bit != 0) {
             *self.stats.faults_fired.entry(what).or_insert(0) += 1;
             true
